@@ -79,32 +79,9 @@ def cases(draw):
             r["lb"], r["ub"] = -2000.5, 0.1
         elif k == 3:
             r["lb"], r["ub"] = -1000, 1000
-    # Objects of different kinds may share an identifier (the SBML prefixes M_/R_/G_ keep them apart): in a third of the
-    # default-replacement cases a reaction and/or a metabolite takes the identifier of a gene, and one group lists both
-    if fr == "default" and spec["genes"] and spec["rxns"] and draw(st.sampled_from([False, False, True])):
-        gid = spec["genes"][draw(st.integers(0, len(spec["genes"]) - 1))]["id"]
-        members = [["g", gid]]
-        if gid not in {r["id"] for r in spec["rxns"]} and draw(st.booleans()):
-            r = spec["rxns"][draw(st.integers(0, len(spec["rxns"]) - 1))]
-            old, r["id"] = r["id"], gid
-            if old in spec["objective"]:
-                spec["objective"][gid] = spec["objective"].pop(old)
-            for g in spec["groups"]:
-                g["members"] = [([k, gid] if (k, x) == ("r", old) else [k, x]) for k, x in g["members"]]
-            members.append(["r", gid])
-        if gid not in {m["id"] for m in spec["mets"]} and (len(members) == 1 or draw(st.booleans())):
-            m = spec["mets"][draw(st.integers(0, len(spec["mets"]) - 1))]
-            old, m["id"] = m["id"], gid
-            for r in spec["rxns"]:
-                if old in r["mets"]:
-                    r["mets"][gid] = r["mets"].pop(old)
-            for g in spec["groups"]:
-                g["members"] = [([k, gid] if (k, x) == ("m", old) else [k, x]) for k, x in g["members"]]
-            members.append(["m", gid])
-        if not spec["groups"]:
-            spec["groups"] = [{"id": "shared_ids", "name": "", "kind": "collection", "members": [], "notes": {}, "annotation": {}}]
-        have = {tuple(x) for x in spec["groups"][0]["members"]}
-        spec["groups"][0]["members"] += [x for x in members if tuple(x) not in have]
+    # Objects of different kinds may share an identifier (the SBML prefixes M_/R_/G_ keep them apart)
+    if fr == "default" and draw(st.sampled_from([False, False, True])):
+        specs.share_ids(draw, spec)
     return {
         "spec": spec,
         "path": draw(st.sampled_from(build.BUILD_PATHS)),
